@@ -52,7 +52,10 @@ GInit ==
      \* per net: everything delivered to the client so far (observable stream), bounded use
      spurious |-> FALSE,       \* a forward was pushed for a filter the session is not subscribed to
      badAck |-> FALSE,         \* a reply was pushed that is not the next one owed
-     cpk |-> [n \in Nets |-> 0]]
+     cpk |-> [n \in Nets |-> 0],
+     sess |-> [c \in CIDs |-> FALSE],     \* a persistent session of this client id exists (C08)
+     badSp |-> FALSE,                     \* a CONNACK carried the wrong session-present flag
+     dirtyClean |-> FALSE]                \* a clean-session connection started with subscriptions or requests
 
 Init ==
     /\ R = RInit(Filters, Topics, CIDs)
@@ -126,6 +129,14 @@ GhostRouterStep ==
             !.spurious = @ \/ \E n \in Nets : \E i \in 1..Len(out(n)) :
                              out(n)[i].t = "forward" /\ out(n)[i].kind \notin SubsOf(R', nets[n].cid) /\ out(n)[i].kind \notin SubsOf(R, nets[n].cid),
             !.badAck = @ \/ \E n \in Nets : failed(n),
+            \* C08: connections accepted in this step (a Connect event was handled and the net became held)
+            !.sess = [c \in CIDs |-> LET ns == {n \in Nets : nets[n].cid = c /\ ~nets[n].held /\ nets'[n].held} IN
+                                      IF ns = {} THEN G.sess[c] ELSE ~nets[CHOOSE n \in ns : TRUE].clean],
+            !.badSp = @ \/ \E n \in Nets : /\ ~nets[n].held /\ nets'[n].held
+                                            /\ LET c == R'.conns[nets'[n].id] IN
+                                               c.acks[1].id # (IF ~nets[n].clean /\ G.sess[nets[n].cid] THEN 1 ELSE 0),
+            !.dirtyClean = @ \/ \E n \in Nets : /\ ~nets[n].held /\ nets'[n].held /\ nets[n].clean
+                                                 /\ LET c == R'.conns[nets'[n].id] IN c.subs # {} \/ c.reqs # <<>> \/ Len(c.acks) # 1,
             !.owed = [n \in Nets |-> IF failed(n) THEN G.owed[n] ELSE rem(n)]]
 
 ---------------------------------------------------------------------------
@@ -277,11 +288,20 @@ CBadAck(n) ==
          Push(n, PAck(k, id))
     /\ G' = [G EXCEPT !.nsub = @ + 1]
 
+\* C03/C14: an event for an arbitrary id reaches the router (a late signal of an ended connection, or a misuse of the
+\* link API): Ready, Disconnect and DeviceData for live, removed and never-registered ids
+RawEvent ==
+    /\ EnStale /\ G.nsub < MaxSubOps
+    /\ \E k \in {"Ready", "Disconnect", "DeviceData"}, id \in 0..MaxConn :
+         chan' = Append(chan, Ev(k, id, 0, "raw"))
+    /\ G' = [G EXCEPT !.nsub = @ + 1]
+    /\ UNCHANGED <<R, nets>>
+
 Client(n) == CSubscribe(n) \/ CUnsubscribe(n) \/ CPublish(n) \/ CRelease(n) \/ CAck(n) \/ CComp(n) \/ CPing(n)
                 \/ CDisconnect(n) \/ CBadAck(n)
 Link(n) == NConnect(n) \/ NFinish(n) \/ NDrain(n) \/ NClose(n) \/ NWill(n)
 
-Next == REvent \/ RConsume \/ \E n \in Nets : Link(n) \/ Client(n)
+Next == REvent \/ RConsume \/ RawEvent \/ \E n \in Nets : Link(n) \/ Client(n)
 Spec == Init /\ [][Next]_vars
 
 ---------------------------------------------------------------------------
@@ -297,6 +317,10 @@ SlabsAligned ==
     /\ \A i \in LiveIds : R.connMap[R.conns[i].cid] = i                   \* one live connection per client id
     /\ Cardinality(LiveIds) <= MaxConn
     /\ \A i \in 1..Len(R.free) : ~Live(R, R.free[i])
+
+\* subscription_map and the connections' own subscription sets agree
+SubMapConsistent ==
+    \A i \in LiveIds : \A f \in Filters : (f \in R.conns[i].subs) <=> (i \in R.subMap[f])
 
 \* a live id is in the ready queue exactly when its tracker is Ready, and at most once
 ReadyqSound ==
@@ -319,6 +343,10 @@ NoSpurious == ~G.spurious
 
 \* C06
 AcksInOrder == ~G.badAck
+
+\* C08
+SessionPresentRule == ~G.badSp
+CleanStartsEmpty == ~G.dirtyClean
 
 \* C09
 WindowBound == \A i \in LiveIds : Len(R.conns[i].inflight) <= MaxInflight
